@@ -14,9 +14,12 @@ git -C /repo worktree add -q --detach "$WT" HEAD || exit 2
 cleanup() { git -C /repo worktree remove --force "$WT" >/dev/null 2>&1; }
 trap cleanup EXIT
 cd "$WT"
-DEMOS=$(ls "$M"/*_test.go 2>/dev/null)
+# demonstrations are stored as *_test.go.txt under /verif/seeded (so that no Go tool picks them up there)
+STAGE=$(mktemp -d); for f in "$M"/*_test.go "$M"/*_test.go.txt; do [ -f "$f" ] && cp "$f" "$STAGE/$(basename "${f%.txt}")"; done
+DEMOS=$(ls "$STAGE"/*_test.go 2>/dev/null)
+grep -qi "\-race" "$M/AGENT_README.md" 2>/dev/null && RACE_HINT=1
 [ -n "$DEMOS" ] || { echo "RESULT $NAME: no demonstration test file"; exit 2; }
-RACEFLAG=""; grep -qi "\-race" "$M/README.md" 2>/dev/null && RACEFLAG="-race"
+RACEFLAG=""; grep -qi "\-race" "$M/README.md" 2>/dev/null && RACEFLAG="-race"; [ "${RACE_HINT:-0}" = 1 ] && RACEFLAG="-race"
 # demo without the change
 cp $DEMOS . 
 go test $RACEFLAG -vet=off -count=1 -run 'Demo|demo|Seeded|Mutant|Test' . > /tmp/mut/$NAME.demo_clean.log 2>&1; CLEAN=$?
